@@ -181,6 +181,10 @@ func HotSpotParamRuleJsonArrayParser(src []byte) (interface{}, error) {
 	}
 	rules := make([]*hotspot.Rule, len(hotspotRules))
 	for i, hotspotRule := range hotspotRules {
+		if hotspotRule == nil {
+			// A JSON null element: keep a nil rule, which the rule manager ignores as invalid.
+			continue
+		}
 		rules[i] = &hotspot.Rule{
 			ID:                hotspotRule.ID,
 			Resource:          hotspotRule.Resource,
